@@ -37,6 +37,34 @@ def load_log(path):
     return T, Q
 
 
+def load_log_all(path):
+    out = {}
+    with open(path) as f:
+        for line in f:
+            if line.startswith('"{'):
+                j = json.loads(common._unescape_tla_string(line.rstrip("\n")[1:-1]))
+                out.setdefault(j["k"], []).append(j)
+    return out
+
+
+def bfs_access(T, inits, fields):
+    """Shortest access path (list of (op, to_key)) from an initial state to every state of TLC's graph."""
+    graph = {}
+    for t in T:
+        graph.setdefault(canon(t["from"], fields), []).append((t["op"], canon(t["to"], fields)))
+    access = {k: (k, []) for k in inits}
+    frontier = list(inits)
+    while frontier:
+        nxt = []
+        for k in frontier:
+            for (op, tk) in graph.get(k, []):
+                if tk not in access:
+                    access[tk] = (access[k][0], access[k][1] + [(op, tk)])
+                    nxt.append(tk)
+        frontier = nxt
+    return graph, access
+
+
 def opkey(op, clause, exc=None):
     a = op["args"]
     flags = ""
